@@ -26,12 +26,15 @@ open DymVerif.Core (Addr NextP)
 /-- decorator 1, the nested-message filter, for one message -/
 def nestedRefusal (s : St) : Op → Option LErr
   | .updateClient _ .nested _ _ => some .nestedDisabled
+  | .updateClient _ .storedProposal _ _ => some .nestedDisabled
   | .misbehaviour c k _ =>
     match getClient s c with
     | none => none
     | some _ => (match k with
       | .submitNested => some .nestedDisabled
       | .viaUpdateNested => some .nestedDisabled
+      | .submitStored => some .nestedDisabled
+      | .viaUpdateStored => some .nestedDisabled
       | _ => none)
   | _ => none
 
